@@ -50,7 +50,7 @@ Inductive item :=
 | Atomic (m : mode) (w h : Z)
 | Hard.
 
-Definition lunit := list item.      (* a unit: items between two consecutive break opportunities *)
+Notation lunit := (list item) (only parsing).   (* a unit: items between two consecutive break opportunities *)
 
 Definition is_open (i : item) := match i with Open _ => true | _ => false end.
 Definition is_close (i : item) := match i with Close _ => true | _ => false end.
